@@ -15,7 +15,7 @@ from fractions import Fraction
 
 import numpy as np
 
-from .. import core
+from .. import core, translate
 from ..scorers import TableCost, find_scale, superadditive_table, tri_values
 
 PICKS = ["first", "last"]
@@ -399,11 +399,89 @@ def oracle_long(case, r):
     return None
 
 
+# ------------------------------------------------------------------------------------ route T2: back-tracking
+
+L1_LOOPS = {"Skc.L1.LoopsPelt": ["loop_pelt_changepoints"]}
+
+
+def gen_backtrack(rng, nmax):
+    """back-pointer arrays as the recursion leaves them: prev[i] <= i, zero on an initial block, and prev[i] + m <= i + 1"""
+    m = rng.randint(1, 4)
+    n = rng.randint(0, 2) if rng.random() < 0.1 else rng.randint(1, 4 * nmax)
+    prev = []
+    for i in range(n):
+        if i + 1 < 2 * m or rng.random() < 0.3:
+            prev.append(0)
+        else:
+            prev.append(rng.choice([0, rng.randint(m, i + 1 - m), i + 1 - m]))
+    return {"prev": prev}
+
+
+def impl_backtrack(case):
+    from skchange.change_detectors.pelt import get_changepoints
+
+    try:
+        a = np.array(case["prev"], dtype=np.int64)
+        keep = a.copy()
+        out = get_changepoints(a)
+        return {"outcome": "ok", "cps": [int(v) for v in out], "mutated": not np.array_equal(a, keep)}
+    except Exception as ex:
+        return {"outcome": "raises:" + type(ex).__name__, "msg": str(ex)[:200]}
+
+
+def backtrack_line(case):
+    return "genpeltcp " + (" ".join(str(v) for v in case["prev"]) or "-")
+
+
+def canon_backtrack(case, r):
+    return "[" + ", ".join(str(v) for v in r["cps"]) + "]" if r["outcome"] == "ok" else "raises"
+
+
+def oracle_backtrack(case, r):
+    """the changepoints are the starts of the segments reached by following the back-pointers from the end, in increasing
+    order, without the artificial start 0"""
+    prev = case["prev"]
+    want, i = [], len(prev) - 1
+    while i >= 0:
+        want.append(prev[i])
+        i = prev[i] - 1
+    want = sorted(want)[1:] if want else []
+    if r["outcome"] != "ok":
+        return f"get_changepoints raises {r['outcome']} on back-pointers {prev}"
+    if r["cps"] != want:
+        return f"get_changepoints({prev}) = {r['cps']}; following the back-pointers from the end gives the segment starts {want}"
+    if r["mutated"]:
+        return "get_changepoints modified its argument"
+    return None
+
+
 def run(chk: core.Check):
     tier = chk.tier
     N = {"quick": 3000, "thorough": 60000}[tier]
     nmax = {"quick": 14, "thorough": 30}[tier]
-    chk.lean()
+    status = {}
+
+    def pre():
+        st, _ = translate.run()
+        status.update(st)
+    try:
+        pre()
+    except Exception:
+        pass
+    skipm = {mm: "translator (route T2): " + ", ".join(f"{k}: {status.get(k, {}).get('reason')}" for k in ks
+                                                      if status.get(k, {}).get("state") != "translated")
+             for mm, ks in L1_LOOPS.items() if any(status.get(k, {}).get("state") != "translated" for k in ks)}
+    chk.lean(extra_modules=list(L1_LOOPS), skip_modules=skipm, pre_build=pre)
+    chk.notes["translator"] = {k: status.get(k, {}).get("state") for ks in L1_LOOPS.values() for k in ks}
+    tr = not skipm
+    chk.rules.append(
+        "gen-backtrack: back-pointer arrays of length 0..%d as the recursion leaves them (zero block, pointers at the admissible "
+        "extremes and inside); `get_changepoints` against following the pointers directly and, line by line, against the Lean "
+        "definition regenerated from its source (driver op `genpeltcp`), which Skc/L1/LoopsPelt.lean proves equal to the model's "
+        "`backtrack` and to the segmentation `pelt_optimal` is about. " % (4 * nmax))
+    chk.run_stream("gen-backtrack", core.Gen(gen_backtrack, core.rng_for(chk.seed, "C02/backtrack"), nmax, N // 3), impl_backtrack,
+                   line=backtrack_line if tr else None, canon=canon_backtrack if tr else None, oracle=oracle_backtrack,
+                   site="get_changepoints", nontrivial=lambda c, r: r.get("outcome") == "ok" and len(r["cps"]) > 0)
     chk.rules.append(
         "table streams: super-additive integer tables (ties frequent), m in 1..4, n in 2m..%d, penalties incl. 0 and "
         "non-integers, through the public API with an exact penalty (skipped and counted when no float scale gives it "
@@ -449,7 +527,7 @@ def run(chk: core.Check):
     chk.run_stream("builtin", core.Gen(gen_builtin_case, rng, min(nmax, 20), N // 3), impl_builtin,
                    oracle=oracle_builtin, skip=skip_builtin, nontrivial=nontriv, site="PELT/builtin",
                    describe=lambda c: c)
-    return chk.finish(shrinker=shrinker)
+    return chk.finish(shrinker=shrinker, trusted_extra=["the loop translator harness/translate_loops.py (reading of get_changepoints: while loop with an iteration bound, Int counter, array indexing, xs[-2::-1]), validated line by line in stream gen-backtrack"])
 
 
 def replay(path):
